@@ -1,6 +1,6 @@
 SPECIFICATION Spec
 CONSTANTS
-  Configs = {"vars", "alias", "func", "opt", "trap", "umask", "mixed"}
+  Configs = {"vars", "alias", "func", "opt", "trap", "umask", "mixed", "trapall", "fn"}
   Depth = 3
   Rich = FALSE
 VIEW View
